@@ -31,9 +31,26 @@ pub fn partitions(n: usize) -> Vec<Vec<usize>> {
 }
 
 fn world_for(chain: &refmodel::chain::ChainBuilder, assign: &[usize]) -> World {
+    world_with_stale_tails(chain, assign, false)
+}
+
+/// `stale_tails`: every file additionally ends with a never-connected competitor block (with data) whose height is
+/// one above the file's highest active block - the losing block of a short fork at a file roll-over.
+fn world_with_stale_tails(chain: &refmodel::chain::ChainBuilder, assign: &[usize], stale_tails: bool) -> World {
+    use refmodel::world::{HAVE_DATA, VALID_TRANSACTIONS};
     let mut w = World::new(chain.coin);
     for (h, b) in chain.blocks.iter().enumerate() {
         w.add_block(assign[h] as u64, chain.first_height + h as u64, b);
+    }
+    if stale_tails {
+        let files: BTreeSet<usize> = assign.iter().copied().collect();
+        for f in files {
+            let maxh = assign.iter().enumerate().filter(|(_, x)| **x == f).map(|(h, _)| h).max().unwrap();
+            let parent = chain.blocks[maxh].hash();
+            let txs = vec![refmodel::chain::coinbase(maxh as u64 + 1, 0xdead, vec![refmodel::chain::pay(250, 1)])];
+            let b = refmodel::ser::Block::build(1, parent, 1_700_000_000, 0x1d00ffff, f as u32, txs);
+            w.add_block_status(f as u64, maxh as u64 + 1, &b, VALID_TRANSACTIONS | HAVE_DATA);
+        }
     }
     w
 }
@@ -160,13 +177,16 @@ pub fn run() -> Report {
     let chain = dependent_chain(btc, 0, n);
     let parts_list = partitions(n);
     let ranges: Vec<(Option<u64>, Option<u64>)> = vec![(None, None), (Some(2), None), (None, Some(3)), (Some(1), Some(4))];
-    let mut cases: Vec<(Vec<usize>, (Option<u64>, Option<u64>))> = Vec::new();
+    let mut cases: Vec<(Vec<usize>, (Option<u64>, Option<u64>), bool)> = Vec::new();
     for p in &parts_list {
         for r in &ranges {
-            cases.push((p.clone(), *r));
+            cases.push((p.clone(), *r, false));
         }
+        // the same partition with a stale block at the end of every file (whole range and one mid-file range)
+        cases.push((p.clone(), (None, None), true));
+        cases.push((p.clone(), (Some(2), None), true));
     }
-    rep.rule = format!("ALL {} set partitions of heights 0..{} into blk files (disjoint, overlapping and interleaved spans) x 4 range shapes: (1) the syscall trace of the real binary (open/close of blk files interleaved with per-height markers) is replayed through the open-set automaton of the statement and its peak compared with the model's overlap number; (2) black box: the run must succeed under RLIMIT_NOFILE = N1 + overlap - 1 with N1 calibrated on the single-file layout; plus disjoint layouts of 200 and 1200 one-block files under N1; non-trivial = distinct (partition, range) with >= 2 files", parts_list.len(), n - 1);
+    rep.rule = format!("ALL {} set partitions of heights 0..{} into blk files (disjoint, overlapping and interleaved spans) x 4 range shapes, plus every partition again with a never-connected stale block (with data) appended to every file one height above that file's highest active block: (1) the syscall trace of the real binary (open/close of blk files interleaved with per-height markers) is replayed through the open-set automaton of the statement and its peak compared with the model's overlap number; (2) black box: the run must succeed under RLIMIT_NOFILE = N1 + overlap - 1 with N1 calibrated on the single-file layout; plus disjoint layouts of 200 and 1200 one-block files under N1; non-trivial = distinct (partition, range) with >= 2 files", parts_list.len(), n - 1);
     rep.bound = json!({"heights": n, "partitions": parts_list.len(), "ranges": ranges.len(), "large_layouts": [200, 1200]});
     rep.assumptions = vec!["'height yet to come' is read against the whole index (a file whose remaining blocks lie beyond --end may stay open until exit)".into()];
     let root = refmodel::world::scratch_root();
@@ -191,18 +211,21 @@ pub fn run() -> Report {
     let parts = par_fold(
         &cases,
         || Report::new("C17", "e3a"),
-        |w, _i, (assign, (s0, e0)), acc| {
+        |w, _i, (assign, (s0, e0), stale), acc| {
             let wk = Worker::new(&root, w);
-            let world = world_for(&chain, assign);
+            let world = world_with_stale_tails(&chain, assign, *stale);
             if let Err(m) = wk.materialise(&world) {
                 return acc.machinery(m);
+            }
+            if *stale {
+                acc.count("partitions-with-stale-block-at-the-end-of-every-file", 1);
             }
             let tip = n as u64 - 1;
             let (s, e) = (s0.unwrap_or(0), e0.map(|x| x.min(tip)).unwrap_or(tip));
             let nfiles = assign.iter().collect::<BTreeSet<_>>().len();
             acc.states += 1;
             if nfiles >= 2 {
-                acc.nontrivial.insert(h8(format!("{:?}{:?}{:?}", assign, s0, e0).as_bytes()));
+                acc.nontrivial.insert(h8(format!("{:?}{:?}{:?}{}", assign, s0, e0, stale).as_bytes()));
             }
             // oracle 1: trace
             let _ = std::fs::remove_file(wk.dir.join("shim.log"));
@@ -223,7 +246,7 @@ pub fn run() -> Report {
                 acc.sample(json!({"height_to_file": assign, "range": [s, e], "trace_peak": tv.peak, "model_overlap": mp, "trace_excerpt": log.lines().filter(|l| l.starts_with("T open") || l.starts_with("T close") || l.starts_with("T marker")).take(14).map(|l| l.replace(&wk.dir.display().to_string(), "")).collect::<Vec<_>>()}));
             }
             if let Some((sig, detail)) = bad.into_iter().next() {
-                acc.disagree(&format!("trace:{}", sig), format!("height->file {:?} range {:?}..{:?}: {}", assign, s0, e0, detail), replay_case(&world, &RunSpec::new("bitcoin", "csvdump").range(*s0, *e0), json!({"height_to_file": assign, "model_overlap": mp}), &r, &wk.dir));
+                acc.disagree(&format!("trace:{}", sig), format!("height->file {:?} stale-tails {} range {:?}..{:?}: {}", assign, stale, s0, e0, detail), replay_case(&world, &RunSpec::new("bitcoin", "csvdump").range(*s0, *e0), json!({"height_to_file": assign, "model_overlap": mp}), &r, &wk.dir));
                 return;
             }
             // oracle 2: descriptor limit (whole range and one mid-file range per partition)
